@@ -133,11 +133,18 @@ def condfail_cases(rng, tier):
     return out
 
 
+PROPS_FILES = ['C05', 'C05step']
+
+
 def units():
     return [
         Unit('cond_table', ['C05_current_cond', 'C05_table'], ['Proofs/CondProofs.v'],
              ['arm_v6.ArmV6.condition_passed', 'arm_v6.ArmV6.current_cond'], cond_cases, IMPORTS, SPEC_IMPORTS),
         Unit('guard', ['C05_guard', 'C05_pass'], ['Proofs/CondProofs.v', 'Proofs/GuardProofs.v'],
              ['arm_v6.ArmV6.condition_passed'], None, IMPORTS, SPEC_IMPORTS),
-        Unit('condfail_search', [], [], [], condfail_cases, IMPORTS, 'From Coq Require Import ZArith List.'),
+        Unit('condfail_search', ['C05_step_cond_fails', 'C05_skip_pc', 'C05_skip_regs', 'C05_skip_mem', 'C05_skip_sys', 'C05_skip_cpsr',
+                                 'C05_step_cond_fails_example'],
+             ['Proofs/StepProofs.v', 'Proofs/StepExample.v'],
+             ['arm_v6.ArmV6.emulate_cycle', 'arm_v6.ArmV6.execute_instruction', 'arm_v6.ArmV6.increment_pc_if_needed'],
+             condfail_cases, IMPORTS, 'From Coq Require Import ZArith List.'),
     ]
